@@ -298,6 +298,10 @@ def pool_value(rng, name):
         return dict(o=rng.choice([None, 7, 513]), s=rng.choice([5, 300, 70000]), r=rng.choice([None, s0()])), kw
     if name == 'S16':
         return dict(k=rng.choice([0, 1, 2, 3, 90, 255]), d=G.rand_bytes(rng, 3), e=G.rand_bytes(rng, 2)), kw
+    if name == 'S17':
+        # constant multi-byte keys over data whose length is not a multiple of the key length: a key stream kept between calls shows
+        n = rng.choice([0, 1, 2, 4, 5, 7])
+        return dict(n=n, d=G.rand_bytes(rng, n), e=G.rand_bytes(rng, rng.choice([0, 1, 3, 4])), f=G.rand_bytes(rng, 3)), kw
     raise KeyError(name)
 
 
